@@ -82,6 +82,28 @@ func opKeyUse(a []string) string {
 	sb.WriteString(" oc=" + oc)
 	alg, err := k.AlgorithmOrDefault()
 	sb.WriteString(" algd=" + classOrAlg(alg, err))
+	// typed parameter accessors on every parameter (never panic, whatever the stored type)
+	acc := []string{}
+	for _, lbl := range []any{cose.KeyLabelEC2Curve, cose.KeyLabelEC2X, cose.KeyLabelEC2Y, cose.KeyLabelEC2D, "ext"} {
+		fl := ""
+		if _, ok := k.ParamBytes(lbl); ok {
+			fl += "B"
+		}
+		if _, ok := k.ParamInt(lbl); ok {
+			fl += "I"
+		}
+		if _, ok := k.ParamUint(lbl); ok {
+			fl += "U"
+		}
+		if _, ok := k.ParamString(lbl); ok {
+			fl += "S"
+		}
+		if _, ok := k.ParamBool(lbl); ok {
+			fl += "T"
+		}
+		acc = append(acc, fl)
+	}
+	sb.WriteString(" acc=" + strings.Join(acc, "/"))
 	enc, err := k.MarshalCBOR()
 	if err != nil {
 		sb.WriteString(" reenc=err")
